@@ -43,12 +43,14 @@ pub struct Profile {
     pub stdlib: usize,
     /// Array cards only where the operand stack is empty and execution is unconditional
     pub safe_arrays: bool,
+    /// weight (0..100) of planting an error-provoking card
+    pub errors: usize,
 }
 
 impl Profile {
     pub fn named(name: &str) -> Profile {
         let base = Profile { nfns: 3, max_depth: 3, stmts: 6, closures: 2, tables: 4, mixed_coercions: 2, while_decl: false,
-                             natives: true, many_globals: false, stdlib: 0, safe_arrays: true };
+                             natives: true, many_globals: false, stdlib: 0, safe_arrays: true, errors: 0 };
         match name {
             "basic" => Profile { nfns: 2, closures: 0, tables: 2, ..base },
             "calls" => Profile { nfns: 5, closures: 1, stmts: 5, ..base },
@@ -59,6 +61,7 @@ impl Profile {
             "globals" => Profile { many_globals: true, nfns: 2, ..base },
             "whiledecl" => Profile { while_decl: true, closures: 0, ..base },
             "arrays" => Profile { safe_arrays: false, tables: 8, ..base },
+            "errors" => Profile { errors: 6, nfns: 3, closures: 3, ..base },
             "std" => Profile { stdlib: 8, tables: 6, closures: 3, ..base },
             _ => base,
         }
@@ -336,7 +339,35 @@ impl<'a> Gen<'a> {
         block(cs)
     }
 
+    /// a card that raises a run-time error of a kind the properties name
+    fn error_card(&mut self, cx: &Ctx) -> C {
+        let v = || int(3);
+        match self.rng.below(12) {
+            0 => card("GetProperty", vec![int(1), int(2)]),
+            1 => card("SetProperty", vec![v(), nil(), strlit("a")]),
+            2 => card("AppendTable", vec![v(), strlit("ab")]),
+            3 => card("PopTable", vec![int(0)]),
+            4 => card("Get", vec![real(1, 1), int(0)]),
+            5 => card("Get", vec![card("CreateTable", vec![]), strlit("a")]),
+            6 => card("Get", vec![card("CreateTable", vec![]), int(-1)]),
+            7 => foreach("", "k", "", int(5), card("Comment", vec![])),
+            8 => dyncall(int(7), vec![]),
+            9 => native("missing_native", vec![]),
+            10 => native("fail0", vec![]),
+            _ => {
+                // the error in a non-last operand position of an enclosing value card
+                let e = card("GetProperty", vec![nil(), strlit("x")]);
+                let g = format!("g{}", self.rng.below(5));
+                let other = self.expr(cx, Ty::Int, 1);
+                setg(&g, card("Add", vec![e, other]))
+            }
+        }
+    }
+
     pub fn stmt(&mut self, cx: &mut Ctx, depth: usize, can_declare: bool) -> Vec<C> {
+        if self.prof.errors > 0 && self.rng.below(100) < self.prof.errors {
+            return vec![self.error_card(cx)];
+        }
         let d = depth.saturating_sub(1);
         let ed = depth.min(2);
         let choice = self.rng.below(30);
@@ -622,7 +653,7 @@ impl<'a> Gen<'a> {
         fns[0].body = body;
         let mut natives = vec![];
         if self.prof.natives {
-            for (n, a, b) in [("log1", 1, "log"), ("log2", 2, "log"), ("log3", 3, "log"), ("id1", 1, "id")] {
+            for (n, a, b) in [("log1", 1, "log"), ("log2", 2, "log"), ("log3", 3, "log"), ("id1", 1, "id"), ("fail0", 0, "fail")] {
                 natives.push(Native { name: n.into(), arity: a, beh: b });
             }
         }
